@@ -55,7 +55,24 @@ def lockstep(ops, primary, replica):
     for k, op in enumerate(ops):
         if op["op"] == "snapshot" and k < len(pr) and "snap" not in pr[k]:
             return None   # the object could not be packed at all (not a b64-able handle): nothing to compare
-    for k in range(first, len(ops)):
+    # (iii) every restore reproduces what was packed (dump taken at snapshot time, same execution) – also for
+    #       restores that follow a caller's in-place edit of an earlier restored copy
+    for name, run in (("replica", rr), ("primary-process", None)):
+        if run is None:
+            continue
+        snap = {}
+        for k, op in enumerate(ops):
+            if k >= len(run):
+                break
+            if op["op"] == "snapshot" and "dump" in run[k]:
+                snap[op["key"]] = run[k]["dump"]
+            if op["op"] == "restore" and op["key"] in snap:
+                got = run[k].get("obj")
+                if got != snap[op["key"]]:
+                    return {"kind": "restore", "at": k, "op": op, "sut": run[k], "ref": {"obj": snap[op["key"]]},
+                            "why": "restored object differs from what was packed"}
+    stop = next((i for i, o in enumerate(ops) if o["op"] == "call" and o.get("m") == "mutate"), len(ops))
+    for k in range(first, stop):
         op = ops[k]
         if op["op"] in ("crash", "audit"):
             continue
@@ -69,6 +86,8 @@ def lockstep(ops, primary, replica):
             return {"kind": kind, "at": k, "op": op, "sut": b, "ref": a,
                     "why": "restored object differs from the live original" if kind == "restore"
                     else "replica answers differently from the primary"}
+    if stop < len(ops):
+        return None   # after a caller's in-place edit primary (aliases) and replica (copies) legitimately differ
     # final audits of post-restore handles
     pa, ra = primary.get("audit") or {}, replica.get("audit") or {}
     for h in sorted(ra):
@@ -167,6 +186,18 @@ def gen_c17(rng, oracle, index, tier="quick"):
     for it in sorted(g.its):
         if rng.random() < 0.7:
             g.emit({"op": "drain", "it": it})
+    # ---- fault: the caller edits one restored polyhedron in place, then unpacks the same string again
+    rpolys = [(h, key) for h in restored for key, src, kind in keys if kind == "poly" and g.handles[h].get("src") == src]
+    if rpolys and rng.random() < 0.5:
+        h, key = rng.choice(rpolys)
+        src = g.handles[h]["src"]
+        g.emit({"op": "call", "h": h, "m": "mutate", "a": {"how": rng.choice(["cell", "dpv"])}})
+        g.fault("caller-edits-restored-copy")
+        h2 = g.fresh("r")
+        g.emit({"op": "restore", "key": key, "h": h2, "src": src, "kind": "poly"}, {"base": src, "src": src})
+        g.events.append(("mutate+restore", "poly:" + mode, ()))
+        if h2 in g.handles:
+            g.emit({"op": "call", "h": h2, "m": "dump"})
     meta = {"profile": p, "fired": g.fired, "events": g.events, "skipped": g.skipped, "hits": g.hits, "mode": mode,
             "restored": len(restored)}
     return g.ops, g.refs, meta
